@@ -619,6 +619,12 @@ func (e *Engine) skipTo(c *run) int64 {
 		return c.startSeq + 1
 	case types.SkipToFirst, types.SkipToLast, types.SkipToVariable:
 		if s := seqOfLabel(c, e.spec.SkipSymbol, e.spec.Skip == types.SkipToFirst, e.subsets); s >= 0 {
+			// SQL:2016 resumes AT the row mapped to the symbol (a match may start
+			// there), not after it; only the match's own first row must be passed,
+			// otherwise the same match would be found again.
+			if s > c.startSeq {
+				return s
+			}
 			return s + 1
 		}
 	}
